@@ -13,6 +13,8 @@ def sig(fl):
     r = seg[0]
     kind, par = r.get("kind"), r.get("par", [])
     head = "driver=%s file=%s ver=%s" % (r.get("driver"), r.get("file"), r.get("ver"))
+    if any(x.get("nested") for x in seg[:i + 1]):
+        head += " overlapping-batches"       # a second caller's batch got in while one was in progress (leveled driver, par step)
     # the rewrite this event belongs to
     b = None
     for k in range(i, -1, -1):
@@ -53,8 +55,11 @@ CONF = {
     "id": "C12", "family": "CgroupTree",
     "mc": [
         {"module": "MC_CgroupTree", "cfg": {"quick": "MC_quick.cfg", "thorough": "MC_quick.cfg"}, "timeout": 900},
-        # coverage on the small chain model: every design action (IMerge IExact SWiden SNarrow IDone) must have been taken
+        # coverage on the small chain model: every design action (IMerge IExact SWiden SNarrow SCover IExternal IDone) must have been taken
         {"module": "MC_CgroupTree", "cfg": {"quick": "MC_chain.cfg", "thorough": "MC_chain.cfg"}, "timeout": 900, "coverage": True},
+        # the BE cgroups over three rounds: suppress / recover alternating on one executor, expiry and environment steps in between
+        {"module": "MC_CgroupTree", "cfg": {"quick": "MC_be.cfg", "thorough": "MC_be_cpu3.cfg"}, "timeout": 900},
+        {"module": "MC_CgroupTree", "cfg": {"quick": None, "thorough": "MC_be_n3.cfg"}, "timeout": 900},
         {"module": "MC_CgroupTree", "cfg": {"quick": None, "thorough": "MC_n4.cfg"}, "timeout": 1800, "workers": 8},
         {"module": "MC_CgroupTree", "cfg": {"quick": None, "thorough": "MC_cpu4.cfg"}, "timeout": 1800, "workers": 8},
     ],
@@ -75,10 +80,32 @@ CONF = {
         "memory 'max'); it never changes a value",
         "forced periodic rewrite (ResourceForceUpdateSeconds) and cache expiry are pushed out of reach; cache entries "
         "disappear only through explicit `expire` events",
-        "at the start of a rewrite a cache entry is absent or was left by the previous rewrite of the same executor "
-        "(no third party changes the files behind the cache)",
+        "at the start of a rewrite a cache entry is absent or agrees with the file: it was left by the previous rewrite of the "
+        "same executor, and where something else changed a file between two rewrites (`external` steps: kubelet, an operator, "
+        "an interrupted earlier run) the entries of the changed files have expired or the agent has restarted (fresh plugin "
+        "object, cold cache) before the next rewrite; a file changed behind a live cache entry is out of scope (the code "
+        "relies on the forced periodic rewrite for it)",
         "validity is the statement's: child cpuset within parent's, child limit/protection <= parent's (Unlimited = top), "
         "also for memory.min/low where the kernel merely clamps",
-        "applyCPUSetWithNonePolicy is called as adjustByCPUSet calls it: oldCPUSet = the BE qos cgroup's cpuset",
+        "two callers of one executor (leveled driver, par steps; concurrency is outside the property's quantifier - an extra): "
+        "the second caller arrives after a chosen updater call of the first batch and gets in iff the executor's own "
+        "LeveledUpdateLock is free at that moment (TryLock, released at once); otherwise its batch runs when the first has "
+        "returned. One legal schedule per arrival point is produced deterministically; other schedules are not explored. Of "
+        "overlapping batches (V) after every write, (T) of the nested batch and 'the files end at the target of one of the "
+        "two' are demanded, (N) is not",
+        "the BE driver enters every round through the real CPUSuppress.suppressBECPU on one plugin object per agent life "
+        "(cpuset policy: adjustByCPUSet -> applyBESuppressCPUSet -> applyCPUSetWithNonePolicy; feature disabled / cfsQuota "
+        "policy / BECPUManager: recoverCFSQuotaIfNeed, adjustByCfsQuota, recoverCPUSetIfNeed, recoverCPUSetForBECPUManager) "
+        "with mocked statesinformer and metric cache; only one-CPU targets (a round never asks for fewer than two CPUs) call "
+        "applyCPUSetWithNonePolicy directly, as adjustByCPUSet calls it: oldCPUSet = the BE qos cgroup's cpuset",
+        "a cpuset round is aimed at the script's target by its inputs: the mock node has 10x the BE pool in processors (the rest "
+        "reserved by the node annotation, so the 10%-of-the-node growth limit per round never cuts a step), an LSE pod holds the "
+        "pool CPUs outside the target and the node usage leaves |target| CPUs to BE - every selection of |target| out of "
+        "|target| eligible CPUs is the target; WHICH cpuset a round should pick is property C10's subject, not C12's",
+        "the rounds that leave the cpuset policy run with no LSE pod / system-exclusive CPU inside the BE pool, and kubelet's "
+        "cpu manager policy is none: their target is the whole pool (0..ncpu-1) for every BE cgroup, i.e. a pure widening. "
+        "A pool that SHIFTS between rounds (LSE pods or reservations changing while BE cgroups hold other CPUs; the static "
+        "kubelet policy branch, which recovers the upper levels to the shifting pool) is written by recoverCPUSetIfNeed in "
+        "one top-down pass and is not generated (see the limits in the C12 report)",
     ],
 }
